@@ -166,6 +166,7 @@ type world struct {
 	expired []uint32
 	cur     int
 	nthr    int
+	dnlMs   int
 	probeN  []string // names probed in the dead nonce list
 	probeX  []uint32
 	// bookkeeping for the generator
@@ -184,8 +185,16 @@ func configureOnce() {
 	fw.Configure()
 }
 
-func newWorld(w *bufio.Writer, nthreads int) *world {
-	wd := &world{w: w, faces: map[uint64]*recFace{}, nthr: nthreads}
+func newWorld(w *bufio.Writer, nthreads int, dnlMs ...int) *world {
+	wd := &world{w: w, faces: map[uint64]*recFace{}, nthr: nthreads, dnlMs: 6000}
+	if len(dnlMs) > 0 && dnlMs[0] > 0 {
+		wd.dnlMs = dnlMs[0]
+	}
+	// the dead-nonce-list lifetime is a configuration item read by table.Configure()
+	cfg := core.GetConfig()
+	cfg.Tables.DeadNonceList.Lifetime = wd.dnlMs
+	core.LoadConfig(cfg, "/tmp")
+	table.Configure()
 	wd.t0 = time.Now()
 	core.ShouldQuit = false
 	table.CreateFIBTable("nametree")
@@ -412,6 +421,12 @@ func (wd *world) doData(f []string, line string) {
 		panic(fmt.Sprint("data did not parse: ", err))
 	}
 	pkt := &defn.Pkt{Name: p.Data.NameV, L3: p, Raw: raw, IncomingFaceID: utils.IdPtr(faceNo)}
+	if f[4] == "@" { // echo the PIT token of the last Interest the forwarder emitted
+		f[4] = "-"
+		if len(wd.emitted) > 0 {
+			f[4] = wd.emitted[len(wd.emitted)-1].tok
+		}
+	}
 	if opt(f[4]) {
 		pkt.PitToken = unhx(f[4])
 	}
@@ -857,6 +872,24 @@ func (g *gen) script() []string {
 	f2 := g.faces[g.r.Intn(len(g.faces))]
 	n := g.pick(g.hot)
 	a, b, c := g.twoNonces()
+	if g.wd.dnlMs <= 1000 && g.r.Intn(2) == 0 {
+		// dead-nonce timeline (short dead-nonce lifetime L): nonce x forwarded; retransmission with another nonce records x as
+		// dead (t1); the Data records x again (t2); the first record expires and is swept; x is used and recorded again (t3);
+		// a sweep after t2+L but before t3+L; then x arrives from another face inside the lifetime of the third record
+		L := int64(g.wd.dnlMs) * 1000000
+		up := g.faces[g.r.Intn(len(g.faces))]
+		k := 0
+		if g.wd.nthr > 1 {
+			k = fw.HashNameToFwThread(parseName(n))
+		}
+		i := func(f uint64, x string) string { return fmt.Sprintf("int %d %s 0 0 %s 10000 - - - -", f, n, x) }
+		return []string{"cs 0 0", fmt.Sprintf("fib ins %s %d 0", n, up),
+			i(f1, a), "sleep 50000000", i(f1, b), "sleep 100000000", fmt.Sprintf("data %d %s - @", up, n),
+			fmt.Sprintf("sleep %d", L-90000000), fmt.Sprintf("sweep %d", k),
+			i(f1, a), "sleep 10000000", i(f1, c),
+			fmt.Sprintf("sleep %d", int64(150000000)), fmt.Sprintf("sweep %d", k),
+			i(f2, a), i(f1, a)}
+	}
 	switch g.r.Intn(4) {
 	case 3:
 		// /localhost Data cached from an exchange between local applications; then a NON-local consumer asks with CanBePrefix for
@@ -993,7 +1026,7 @@ func header(wd *world, k int, names []string, nonces []uint32) {
 	for i, x := range nonces {
 		xs[i] = strconv.FormatUint(uint64(x), 10)
 	}
-	wd.pf("cfg threads=%d dnl=6000000000 cscap=1024 region=%s\n", wd.nthr, regionName)
+	wd.pf("cfg threads=%d dnl=%d cscap=1024 region=%s\n", wd.nthr, int64(wd.dnlMs)*1000000, regionName)
 	// the thread HashNameToFwThread selects for every name of the universe and every prefix of one
 	hs := []string{}
 	for _, n := range prefixClosure(names) {
@@ -1050,12 +1083,17 @@ func TestTrace(t *testing.T) {
 		}
 		for k, ops := range cases {
 			synctest.Test(t, func(t *testing.T) {
-				nt := 1
-				if len(ops) > 0 && strings.HasPrefix(ops[0], "threads ") {
-					nt, _ = strconv.Atoi(strings.Fields(ops[0])[1])
+				nt, dl := 1, 0
+				for len(ops) > 0 && (strings.HasPrefix(ops[0], "threads ") || strings.HasPrefix(ops[0], "dnl ")) {
+					v, _ := strconv.Atoi(strings.Fields(ops[0])[1])
+					if strings.HasPrefix(ops[0], "threads ") {
+						nt = v
+					} else {
+						dl = v
+					}
 					ops = ops[1:]
 				}
-				wd := newWorld(w, nt)
+				wd := newWorld(w, nt, dl)
 				header(wd, k, universe, pool)
 				for _, op := range ops {
 					wd.exec(normalizeOp(op))
@@ -1073,7 +1111,11 @@ func TestTrace(t *testing.T) {
 			if r.Intn(2) == 0 {
 				nt = 2 + r.Intn(3)
 			}
-			wd := newWorld(w, nt)
+			dl := 6000
+			if r.Intn(3) == 0 {
+				dl = []int{300, 300, 1000}[r.Intn(3)]
+			}
+			wd := newWorld(w, nt, dl)
 			g := &gen{r: r, names: universe, wd: wd}
 			// hot names: a small shared-prefix cluster so that PIT entries collide, aggregate and multi-match
 			base := g.pick([]string{"/8.1", "/8.1/8.2", "/8.0/8.4", "/8.0", "/8.2", "/"})
